@@ -1,7 +1,58 @@
-(* C04 placeholder during construction *)
-From PD Require Import Base.Field Base.Matrix.
-Theorem C04_mtr_mtr :
-  forall (F : Type) (H : FieldOps F) (FL : FieldLaws F) n m (A : @mat F),
-    mtr m n (mtr n m A) = canon n m A.
-Proof. intros. apply mtr_mtr. Qed.
-Print Assumptions C04_mtr_mtr.
+(* C04 -- output-scale calibration is the documented estimator and is
+   scale-equivariant.  Scales are carried as SQUARES in the model. *)
+From Coq Require Import List Arith.
+From PD Require Import Base.Field Base.Matrix Base.Solve Model.Gauss Model.Poly Model.Prior Model.Solver
+  Spec.RTS Proofs.CalibProofs.
+Import ListNotations.
+
+Section C04.
+  Context {F : Type} `{FL : FieldLaws F}.
+
+  (* MLE mode: after N >= 1 steps the running value squared is the arithmetic
+     mean of the N squared whitened residual norms (any N, any terms) and the
+     data counter is N *)
+  Theorem C04_running_rms_is_rms :
+    forall terms : list F, terms <> [] ->
+      snd (run_fold terms (O, f0)) = fdiv (fold_right fadd f0 terms) (fnat (length terms))
+      /\ fst (run_fold terms (O, f0)) = length terms.
+  Proof. exact running_rms_is_rms. Qed.
+
+  (* the documented 1/sqrt(N) correction, on squares *)
+  Theorem C04_mle_final_scale_formula :
+    forall (cf : @config F) (last : @sstate F) nlast,
+      cf_calib cf = CalMLE true ->
+      final_scale2 cf last nlast = map (fun x => fdiv x (fnat nlast)) (st_run2 last).
+  Proof. exact mle_final_scale_formula. Qed.
+
+  (* equivariance of one Kalman prediction under covariance scaling *)
+  Theorem C04_prediction_scale_equivariant :
+    forall n k c (A b Q : @mat F) (rv : @normal F),
+      kf_predict n k A b (mscale n n c Q) (mkN (n_mean rv) (mscale n n c (n_cov rv)))
+      = mkN (n_mean (kf_predict n k A b Q rv)) (mscale n n c (n_cov (kf_predict n k A b Q rv))).
+  Proof. exact kf_predict_scale. Qed.
+
+  (* ... and of one Kalman update: means (and gains) unchanged, covariance x c *)
+  Theorem C04_update_scale_equivariant :
+    forall n k cc c (Hm r R : @mat F) (rv u u' : @normal F),
+      c <> f0 ->
+      kf_update minv n k cc Hm r R rv = Some u ->
+      kf_update minv n k cc Hm r (mscale k k c R) (mkN (n_mean rv) (mscale n n c (n_cov rv))) = Some u' ->
+      u' = mkN (n_mean u) (mscale n n c (n_cov u)).
+  Proof. exact kf_update_scale. Qed.
+
+  (* the whitened residual norm squared divides by c: the estimated scale
+     divides by |c|^(1/2 * 2), calibrated covariances are invariant *)
+  Theorem C04_whitened_rms_scale :
+    forall n cc c (rv : @normal F) (u : @mat F) x x',
+      c <> f0 ->
+      whitened_rms2 minv n cc rv u = Some x ->
+      whitened_rms2 minv n cc (mkN (n_mean rv) (mscale n n c (n_cov rv))) u = Some x' ->
+      x' = fdiv x c.
+  Proof. exact whitened_rms2_scale. Qed.
+End C04.
+
+Print Assumptions C04_running_rms_is_rms.
+Print Assumptions C04_mle_final_scale_formula.
+Print Assumptions C04_prediction_scale_equivariant.
+Print Assumptions C04_update_scale_equivariant.
+Print Assumptions C04_whitened_rms_scale.
